@@ -25,10 +25,12 @@ DET_SAMPLE = {"quick": 48, "thorough": 400}
 PROBES = ["kill_inside_copy", "kill_between_files", "kill_holding_lock", "load_during_population",
           "lock_contended", "lock_timeout", "refresh_skipped_in_interval", "refresh_ran",
           "load_after_crash", "torn_prefix_delivered", "two_populators_overlap", "partnered_load",
-          "load_found_version_missing_then_recovered", "kill_inside_timestamp_write"]
-RULE = ("Runs 0..S1_N-1 enumerate every crash point (and a torn variant of every write step) of one "
-        "population of a seed-chosen file subset followed by fresh loads (family S1: the crash dimension of that "
-        "scenario is enumerated completely); the remaining runs are seeded scenarios of families S1 (other subsets/"
+          "load_found_version_missing_then_recovered", "kill_inside_timestamp_write", "s1_enum_kill_beyond_last_step",
+          "populator_interrupted_by_io_error"]
+RULE = ("Runs 0..S1_N-1 enumerate every crash point (kill before step k, plain and with a torn variant of a pending "
+        "write, k = 0..139; probe s1_enum_kill_beyond_last_step shows the enumeration passed the last step) of the "
+        "population of one (quick) / six (thorough) fixed file subsets, each followed by fresh loads of every file "
+        "(family S1: the crash dimension of these scenarios is enumerated completely); the remaining runs are seeded scenarios of families S1 (other subsets/"
         "knobs), S2 (2 populators + 1-2 loaders, random schedule, optional kill/stall), S3 (2-3 lock holders on one "
         "directory, one on another, stalls, kills) and S4 (refresh sequences at seeded simulated times with network "
         "up/down, kills inside the timestamp write, clock jumps, then loads).  A run is non-trivial when at least one "
@@ -153,7 +155,14 @@ ALL_FILES = ["HED8.0.0.xml", "HED8.1.0.xml", "HED8.2.0.xml", "HED8.3.0.xml", "HE
 PARTNER = {"HED_score_1.1.0.xml": "HED8.2.0.xml", "HED_score_2.0.0.xml": "HED8.3.0.xml",
            "HED_testlib_2.0.0.xml": "HED8.2.0.xml", "HED_testlib_2.1.0.xml": "HED8.2.0.xml",
            "HED_testlib_3.0.0.xml": "HED8.2.0.xml"}
-S1_N = {"quick": 260, "thorough": 1400}
+S1_BLOCK = 280          # run indices per enumerated scenario: kill step 0..139, each plain and torn
+S1_N = {"quick": 280, "thorough": 1680}
+S1_VARIANTS = [(["HED8.2.0.xml", "HED_testlib_2.0.0.xml", "HED_score_1.0.0.xml"], 131072),
+               (["HED8.3.0.xml", "HED_score_2.0.0.xml"], 262144),
+               (["HED8.0.0.xml", "HED8.1.0.xml", "HED8.2.0.xml", "HED_testlib_2.1.0.xml"], 1 << 20),
+               (["HED8.2.0.xml", "HED_score_1.1.0.xml", "HED_testlib_3.0.0.xml"], 65536),
+               (["HED8.3.0.xml"], 65536),
+               (["HED8.0.0.xml", "HED_testlib_1.0.2.xml"], 16384)]
 
 
 def _knobs(g):
@@ -184,10 +193,11 @@ def generate(run_index, seed, tier):
     n_enum = S1_N[tier]
     if run_index < n_enum:
         # complete crash-point enumeration of ONE population scenario (fixed by the master seed via run 0's stream)
-        files = ["HED8.2.0.xml", "HED_testlib_2.0.0.xml", "HED_score_1.0.0.xml"]
-        sc = {"family": "S1", "files": files, "chunk": 131072, "bufsize": 131072, "permute": False,
+        variant = run_index // S1_BLOCK
+        files, chunk = S1_VARIANTS[variant % len(S1_VARIANTS)]
+        sc = {"family": "S1", "files": list(files), "chunk": chunk, "bufsize": chunk, "permute": False,
               "proxy_reads": False, "sched_seed": 7, "net_up": False, "phases": []}
-        step = run_index // 2
+        step = (run_index % S1_BLOCK) // 2
         torn = None if run_index % 2 == 0 else 0.5
         pop = {"kind": "populate", "args": {}, "dur": 0.0005, "start": 0.0,
                "faults": [{"kind": "kill", "step": step, "torn": torn}]}
@@ -206,8 +216,12 @@ def generate(run_index, seed, tier):
         pop = _proc(g, g.pick(["populate", "populate", "load"]))
         if pop["kind"] == "load":
             pop["args"]["version"] = version_of(g.pick(files))
-        pop["faults"].append({"kind": "kill", "step": g.randrange(0, 30 * len(files)),
-                              "torn": g.pick([None, None, 0.25, 0.5, 0.9])})
+        if pop["kind"] == "populate" and g.chance(0.25):
+            # a different interruption: the disk fills up / an I/O error hits one of the populator's writes
+            pop["faults"].append({"kind": "ioerr", "step": g.randrange(0, 30 * len(files)), "errno": g.pick([28, 5])})
+        else:
+            pop["faults"].append({"kind": "kill", "step": g.randrange(0, 30 * len(files)),
+                                  "torn": g.pick([None, None, 0.25, 0.5, 0.9])})
         phases.append({"procs": [pop], "gap": round(g.uniform(0, 5), 3)})
         if g.chance(0.35):
             p2 = _proc(g, "populate")
@@ -544,9 +558,13 @@ def execute(sc, script=None):
         faults["listing_permuted"] = fs.counts["listing_permuted"]
     if fs.counts.get("torn_prefix_delivered"):
         faults["torn_write"] = fs.counts["torn_prefix_delivered"]
+    if fs.counts.get("io_error_raised"):
+        faults["io_error"] = fs.counts["io_error_raised"]
     n_net_down = sum(1 for h in sim.history if h[3] == "net" and h[6] == "down")
     if n_net_down:
         faults["net_partition_hit"] = n_net_down
+    if sc.get("enumerated") and not sim.fired.get("kill"):
+        probe("s1_enum_kill_beyond_last_step")     # the enumeration ran past the populator's last step: it is complete
     overlap = probes.get("two_procs_overlap", 0)
     hist = [list(h) for h in sim.history]
     seen = set()
@@ -687,6 +705,9 @@ def _check_history(W, sc, sim, events, procs_meta, violations, probe, lockworld,
                         "completed-population-left-%s" % ("missing-file" if got is None else "different-bytes")).record(PROP))
                     break
         if spec["kind"] == "populate" and p.state == "failed":
+            if any(h[1] == p.pid and str(h[6]).startswith("OSError") for h in hist):
+                probe("populator_interrupted_by_io_error")      # an injected disk error is an interruption, not a verdict
+                continue
             violations.append(Violation("O-load", "cache_local_versions raised %s: %s" % (type(p.exc).__name__, str(p.exc)[:200]),
                                         "populate-raised-%s" % type(p.exc).__name__).record(PROP))
     # ---- O-mutex: critical sections [enter-returned, exit-called | death] on one directory never overlap
@@ -725,6 +746,8 @@ def _check_history(W, sc, sim, events, procs_meta, violations, probe, lockworld,
             if e["exc"] != "CacheException":
                 if e["exc"] in ("ProcessKilled", "SimAbort"):
                     continue
+                if e["exc"] == "OSError" and any(h[1] == e["pid"] and str(h[6]).startswith("OSError") for h in hist):
+                    continue     # an injected disk error, not lock contention: not what the clause is about
                 violations.append(Violation(
                     "O-timeout", "CacheLock.__enter__ raised %s (%s) instead of the documented CacheException"
                     % (e["exc"], e["msg"]), "enter-raised-%s" % e["exc"]).record(PROP))
